@@ -1,5 +1,6 @@
 (* C13/Witness.v — non-vacuity examples (vm_compute). *)
-From Verif Require Import Common.Base C13.Model C13.Spec C13.Proofs1 C13.Proofs2.
+From Verif Require Import Common.Base C13.Model C13.Spec C13.Proofs1 C13.Proofs2 C13.Proofs3 C13.Proofs4 C13.Instances.
+From Verif Require Import Generated.C13CfgSchema.
 From Coq Require Import String.
 Open Scope string_scope.
 
@@ -69,3 +70,89 @@ Proof. vm_compute. reflexivity. Qed.
 
 Example dup_witness : duplicated "batch" ["batch"; "batch"].
 Proof. exists 0, 1. repeat split; auto. Qed.
+
+(* ---- strict decoding ---------------------------------------------------------------------- *)
+(* a descriptor with a squashed member, a pointer, a slice of structs and a map of structs *)
+Definition t1 : tdesc :=
+  TStruct false [("Embedded", true, TStruct false [("endpoint", false, TLeaf)]);
+                 ("tls", false, TPtr (TStruct false [("ca_file", false, TLeaf)]));
+                 ("list", false, TSlice (TStruct false [("id", false, TLeaf)]));
+                 ("m", false, TMap (TStruct false [("x", false, TLeaf)]))].
+
+Definition v1 : cv :=
+  CMap [("endpoint", CScalar "a:1"); ("tls", CMap [("ca_file", CScalar "f"); ("oops", CScalar "1")]);
+        ("list", CList [CMap [("id", CScalar "1")]; CMap [("idd", CScalar "2")]]);
+        ("m", CMap [("k", CMap [("y", CNull)])]); ("Embedded", CNull)].
+
+Example v1_unused : unused t1 v1 = [(["tls"], "oops"); (["list"; "1"], "idd"); (["m"; "k"], "y"); ([], "Embedded")].
+Proof. vm_compute. reflexivity. Qed.
+
+Example v1_unk : unk t1 v1 ["list"; "1"] "idd".
+Proof. apply unused_sound_l. vm_compute. auto. Qed.
+
+Example v1_rejected : decode_strict_ok t1 v1 = false.
+Proof. vm_compute. reflexivity. Qed.
+
+Example v1_ok : decode_strict_ok t1 (CMap [("endpoint", CScalar "a:1"); ("tls", CMap [("ca_file", CScalar "f")])]) = true.
+Proof. vm_compute. reflexivity. Qed.
+
+(* a `,remain` level accepts everything *)
+Example remain_accepts : unused (TStruct true [("a", false, TLeaf)]) (CMap [("zzz", CScalar "1")]) = [].
+Proof. vm_compute. reflexivity. Qed.
+
+(* the schema dumped from the tree is not empty and has struct levels to insert into *)
+Example schema_levels : (fold_right (fun e n => struct_levels (snd e) + n) 0 schema >= 40)%nat.
+Proof. vm_compute. repeat constructor. Qed.
+
+(* ---- faithfulness ------------------------------------------------------------------------- *)
+Definition d1 : tv :=
+  VRec [("timeout", VSc "5000000000");
+        ("sending_queue", VRec [("enabled", VSc "true"); ("queue_size", VSc "1000")])].
+Definition m1 : option cv := Some (CMap [("sending_queue", CMap [("queue_size", CScalar "7")])]).
+
+Example d1_overlay : overlay d1 m1 =
+  VRec [("timeout", VSc "5000000000"); ("sending_queue", VRec [("enabled", VSc "true"); ("queue_size", VSc "7")])].
+Proof. vm_compute. reflexivity. Qed.
+
+Example d1_written : leaf_at d1 ["sending_queue"; "queue_size"] "1000" /\ written m1 ["sending_queue"; "queue_size"] "7".
+Proof. split; reflexivity. Qed.
+
+Example d1_unwritten : leaf_at d1 ["sending_queue"; "enabled"] "true" /\ unwritten m1 ["sending_queue"; "enabled"].
+Proof. split; [reflexivity|left; reflexivity]. Qed.
+
+(* the OTLP receiver rule: an unwritten protocol section becomes nil *)
+Example otlp_protocol_rule :
+  decode_model "receivers/otlp"
+    (VRec [("protocols", VRec [("grpc", VRec [("endpoint", VSc "a")]); ("http", VRec [("endpoint", VSc "b")])])])
+    (CMap [("protocols", CMap [("http", CNull)])])
+  = VRec [("protocols", VRec [("http", VRec [("endpoint", VSc "b")])])].
+Proof. vm_compute. reflexivity. Qed.
+
+(* ---- documentation: the blocking rule BEFORE fix a5b2af88a (known finding C13-BLOCKING-OVERRIDES,
+   now repaired).  The old rule copied `blocking` whenever it was set and thereby overwrote a
+   written sibling; the current rule (Model.apply_rule) does not. *)
+Definition apply_rule_old_blocking (m : option cv) (v : tv) : tv :=
+  if is_set ["sending_queue"] "blocking" m then
+    tv_update ["sending_queue"]
+      (fun fs => match lookup "blocking" fs with
+                 | Some x => map (fun e => if String.eqb (fst e) "block_on_overflow" then ("block_on_overflow", x) else e) fs
+                 | None => fs
+                 end) v
+  else v.
+
+Definition d_q : tv := VRec [("sending_queue", VRec [("enabled", VSc "true"); ("block_on_overflow", VSc "false"); ("blocking", VSc "false")])].
+Definition m_q : cv := CMap [("sending_queue", CMap [("block_on_overflow", CScalar "true"); ("blocking", CScalar "false")])].
+
+Example old_rule_overrode_written_sibling :
+  tv_get ["sending_queue"; "block_on_overflow"] (apply_rule_old_blocking (Some m_q) (overlay d_q (Some m_q))) = Some (VSc "false").
+Proof. vm_compute. reflexivity. Qed.
+
+Example new_rule_keeps_written_sibling :
+  tv_get ["sending_queue"; "block_on_overflow"] (decode_model "exporters/otlp" d_q m_q) = Some (VSc "true").
+Proof. vm_compute. reflexivity. Qed.
+
+(* the alias still works when block_on_overflow is not written *)
+Example new_rule_alias :
+  tv_get ["sending_queue"; "block_on_overflow"]
+    (decode_model "exporters/otlp" d_q (CMap [("sending_queue", CMap [("blocking", CScalar "true")])])) = Some (VSc "true").
+Proof. vm_compute. reflexivity. Qed.
